@@ -66,3 +66,39 @@ fn k04_inherited_operation_shadowed() {
     core::mem::forget(own);
     core::mem::forget(inherited0);
 }
+
+//@ prop: C04
+//@ family: K04-shadow
+//@ tier: quick
+//@ functions: validators::identifiers::validate_inherited_identifiers (public rule entry), check_for_shadowing
+//@ inst: one declared operation "ab" and two inherited operations: "cd" (concrete, cannot collide) and a second one with a symbolic 2-character name
+//@ inputs: both characters of the second inherited name
+//@ oracle: E011 exactly when the declared name equals the SECOND inherited name (every inherited operation is compared, not only the one at the same position); nothing else
+//@ stubs: std::fmt::format -> empty string
+//@ bound: unwind 6; at most one diagnostic (the first comparison is between concrete, different names)
+#[kani::proof]
+#[kani::unwind(6)]
+#[kani::stub(std::fmt::format, stub_format)]
+fn k04_inherited_operation_shadowed_second() {
+    let n: [u8; 2] = kani::any();
+    kani::assume(n[0] >= 0x30 && n[0] <= 0x7a && n[1] >= 0x30 && n[1] <= 0x7a);
+    let own = op(b'a', b'b');
+    let inherited0 = op(b'c', b'd');
+    let inherited1 = op(n[0], n[1]);
+    let mut symbols: Vec<&Operation> = Vec::with_capacity(1);
+    symbols.push(&own);
+    let mut inherited: Vec<&Operation> = Vec::with_capacity(2);
+    inherited.push(&inherited0);
+    inherited.push(&inherited1);
+    let mut diagnostics = Diagnostics::new();
+    validate_inherited_identifiers(symbols, inherited, &mut diagnostics);
+    let want = n[0] == b'a' && n[1] == b'b';
+    kani::cover!(want, "redeclaration of the second inherited operation reachable");
+    kani::cover!(n[0] == b'a' && n[1] != b'b', "near miss reachable");
+    let ds = diagnostics.into_inner();
+    assert!(ds.len() == want as usize, "an operation is diagnosed exactly when it redeclares an inherited one, whichever position that one has");
+    core::mem::forget(ds);
+    core::mem::forget(own);
+    core::mem::forget(inherited0);
+    core::mem::forget(inherited1);
+}
